@@ -67,7 +67,9 @@ type c12CtxKey struct{}
 // longer than 2 s of real time may contain such a retry: the case is then counted as
 // excluded (never as failed) and not judged any further. Every retry path of go-redis
 // (read/write/pool/dial timeout) needs >= 3 s, so no retry hides below the threshold.
-const c12Stall = 400 * time.Microsecond
+const c12Stall = 2 * time.Second
+
+var c12StepStall = c12Stall
 
 func c12Setup(t *testing.T) *c12Twins {
 	c12Once.Do(func() {
@@ -124,8 +126,11 @@ type c12Env struct {
 	ncmd    int
 }
 
-func (e *c12Env) reset(t *testing.T) {
-	for {
+// reset empties both twins. It reports false when the housekeeping round trips
+// stalled three times in a row (the case is then excluded).
+func (e *c12Env) reset(t *testing.T) bool {
+	ok := false
+	for try := 0; try < 3 && !ok; try++ {
 		tw := e.tw
 		for _, m := range []*miniredis.Miniredis{tw.mA, tw.mB} {
 			m.FlushAll()
@@ -136,14 +141,14 @@ func (e *c12Env) reset(t *testing.T) {
 		t0 := time.Now()
 		tw.admA.ScriptFlush(bg)
 		tw.rawB.ScriptFlush(bg)
-		if time.Since(t0) <= c12Stall {
-			break
+		if ok = time.Since(t0) <= c12Stall; !ok {
+			c12Renew(t) // a late SCRIPT FLUSH must not hit a running case
 		}
-		c12Renew(t) // a late SCRIPT FLUSH must not hit a running case
 	}
 	e.now = c12T0
 	e.r = New(e.tw.mA.Addr())
 	e.fails = 0
+	return ok
 }
 
 // noteErr keeps the wrapper's per-instance breaker out of the picture: the breaker
@@ -281,7 +286,11 @@ func c12Ctx(x bool) context.Context {
 func c12Interp(t *testing.T, c c12Case) (v kit.Verdict) {
 	tw := c12Setup(t)
 	e := &c12Env{tw: tw, classes: map[string]bool{}, types: map[string]bool{}}
-	e.reset(t)
+	if !e.reset(t) {
+		v.Excluded = true
+		v.Classes = []string{"env:stalled-step"}
+		return v
+	}
 	defer func() {
 		v.NonTrivial = e.ncmd >= 10 && len(e.types) >= 3 && e.hits >= 1
 		for k := range e.classes {
@@ -292,7 +301,7 @@ func c12Interp(t *testing.T, c c12Case) (v kit.Verdict) {
 	for i, s := range c.Steps {
 		t0 := time.Now()
 		msg := e.step(s)
-		if time.Since(t0) > c12Stall {
+		if time.Since(t0) > c12StepStall {
 			// environment guard, never a failure: see c12Stall
 			e.classes["env:stalled-step"] = true
 			v.Excluded = true
